@@ -45,6 +45,11 @@ def build_module(defined_table):
     m.func([I32], [I32], L(0) + W.ins("i32.eqz") + W.ins("if", I32) + W.ins("i32.const", 0) + W.ins("else") + L(0) + W.ins("i32.const", 1) + W.ins("i32.sub") + W.ins("call", ev) + W.ins("end"), export="isodd")
     m.func([I32, I32, I32], [I32], L(0) + L(1) + L(2) + W.ins("call_indirect", t2, 0), export="ind")
     m.func([I32, I32, I32, I64], [I64], L(3) + L(0) + L(1) + L(2) + W.ins("call_indirect", t2, 0) + W.ins("i64.extend_i32_u") + W.ins("i64.xor"), export="indbelow")
+    # zero-parameter callee through the table: its result slot is the slot of the table index itself
+    t0 = m.type([], [I32])
+    f_k = m.func([], [I32], W.ins("i32.const", 1111))
+    m.func([I32, I32], [I32], L(0) + L(1) + W.ins("call_indirect", t0, 0) + W.ins("i32.xor"), export="ind0")
+    m.elem(W.ins("i32.const", 7), [f_k])
     m.elem(W.ins("global.get", gbase), [f_sub, f_add])
     m.elem(W.ins("i32.const", 5), [f_xor, f_sub])
     return m
@@ -128,10 +133,14 @@ void h_indbelow(void) { ND(U32, a); ND(U32, b); ND(U32, base); ND(U64, below); U
     r = MODNAME_indbelow(&inst, a, b, base + 1, below);
     OBL(r == (below ^ (U64)(U32)(a + b)), "call_indirect under another operand: result lands above it");
     CANARY("indbelow"); }
+void h_ind0(void) { ND(U32, below); ND(U32, base); U32 r; ASSUME(base <= 2); setup(base);
+    r = MODNAME_ind0(&inst, below, 7);
+    OBL(r == (below ^ 1111u), "call_indirect of a zero-parameter function: its result replaces the table index (slot h-1) and the operand below survives");
+    CANARY("ind0"); }
 void h_elem(void) { ND(U32, base); ND(U32, k); ASSUME(base <= 2 && k < 8); setup(base);
-    OBL(TAB.data[base] != (wasmFunc)sentinel && TAB.data[base + 1] != (wasmFunc)sentinel && TAB.data[5] != (wasmFunc)sentinel && TAB.data[6] != (wasmFunc)sentinel,
+    OBL(TAB.data[base] != (wasmFunc)sentinel && TAB.data[base + 1] != (wasmFunc)sentinel && TAB.data[5] != (wasmFunc)sentinel && TAB.data[6] != (wasmFunc)sentinel && TAB.data[7] != (wasmFunc)sentinel,
         "element segments: every listed slot of the designated (defined or imported) table is initialised, with a constant or an imported-global offset");
-    OBL(k == base || k == base + 1 || k == 5 || k == 6 || TAB.data[k] == (wasmFunc)sentinel, "element segments: no other table slot is written");
+    OBL(k == base || k == base + 1 || k == 5 || k == 6 || k == 7 || TAB.data[k] == (wasmFunc)sentinel, "element segments: no other table slot is written");
     OBL(TAB.data[base] == TAB.data[6], "element segments: the same function index denotes the same function in every segment");
     CANARY("elem"); }
 '''
@@ -141,11 +150,11 @@ HARNESS_DEFINED = HARNESS
 
 def make_jobs(ctx):
     jobs = []
-    for tag, defined in (("imp", False), ("def", True)):
-        modname = "c04%s" % tag
+    for tag, defined, opts in (("imp", False, ()), ("def", True, ()), ("imp-p", False, ("-p",)), ("def-p", True, ("-p",))):
+        modname = "c04%s" % tag.replace("-", "")
         m = build_module(defined)
         wasm_bytes = m.encode()
-        d, r = ctx.translate(wasm_bytes, modname, ())
+        d, r = ctx.translate(wasm_bytes, modname, opts)
         if d is None:
             raise Undecided("w2c2 rejected the call probe module (%s)" % tag)
         text = HARNESS.replace("MODNAME", modname)
@@ -160,11 +169,11 @@ def make_jobs(ctx):
                              ("h_callmix", "call (direct)", {}), ("h_callmixperm", "call (direct)", {}),
                              ("h_tri", "call (recursive)", dict(bounded="recursion depth <= 5 (n <= 4)")),
                              ("h_evenodd", "call (mutually recursive)", dict(bounded="recursion depth <= 5 (n <= 4)")),
-                             ("h_ind", "call_indirect", {}), ("h_indbelow", "call_indirect", {}), ("h_elem", "element segments / InitTables", {})):
+                             ("h_ind", "call_indirect", {}), ("h_indbelow", "call_indirect", {}), ("h_ind0", "call_indirect", {}), ("h_elem", "element segments / InitTables", {})):
             jobs.append(Job("G.%s.%s" % (tag, h[2:]), hp, entry=h, includes=[d, os.path.join(ctx.repo, "w2c2")],
                             flags=["--unwind", "10", "--unwinding-assertions"], funcs=["generated:%s %s" % (modname, fn)],
                             replay=lambda c, j, p, v: native_replay_generic(c, j, p, v),
-                            info=dict(layer="G", table=("defined" if defined else "imported"), module_hex=wasm_bytes.hex()), **extra))
+                            info=dict(layer="G", table=("defined" if defined else "imported"), w2c2_options=" ".join(opts), module_hex=wasm_bytes.hex()), **extra))
     return jobs
 
 
